@@ -32,7 +32,9 @@ pub struct Plan {
 pub fn names() -> Vec<&'static str> { vec!["Hydrofin", "Notch", "jeb_", "Ünï", "a", "Player_16_chars__", "x&y=z"] }
 
 pub fn addr(rng: &mut Rng) -> SocketAddr {
-    match rng.below(4) {
+    match rng.below(5) {
+        // an IPv4 client of a dual-stack listener
+        4 => "[::ffff:10.1.2.3]:41000".parse().unwrap(),
         0 => "127.0.0.1:25564".parse().unwrap(),
         1 => "192.0.2.77:50123".parse().unwrap(),
         2 => "[2001:db8::17]:40000".parse().unwrap(),
